@@ -25,8 +25,11 @@ func genC07(t *rapid.T) *c07Case {
 		cfg = gen.ImgCfg{MaxSide: 72, BigChance: 3, BigSide: 320, ThinPermille: 8, LargePermille: 5}
 	}
 	// bias toward pictures that do carry transparency
-	cfg.Alphas = []string{"opaque", "binary", "binary", "levels", "levels", "gradient", "noise", "transparent", "transp-colored", "semi-flat", "late", "early"}
+	cfg.Alphas = []string{"opaque", "binary", "binary", "levels", "levels", "gradient", "noise", "transparent", "transp-colored", "semi-flat", "late", "early", "holes"}
 	c := &c07Case{Img: gen.DrawImg(t, cfg), Opts: gen.DrawLossyOpts(t, false)}
+	if rapid.IntRange(0, 24).Draw(t, "skipHeavy") == 11 {
+		steerSkipHeavy(t, c.Img, c.Opts)
+	}
 	return c
 }
 
